@@ -642,7 +642,12 @@ func newUpConn(c group.Client, id string, label string, offer string) (*rtpUpCon
 		return nil, err
 	}
 
-	api, err := c.Group().API()
+	// the client may leave its group (or be kicked) at any time
+	g := c.Group()
+	if g == nil {
+		return nil, errors.New("client is not in a group")
+	}
+	api, err := g.API()
 	if err != nil {
 		return nil, err
 	}
@@ -688,10 +693,17 @@ func newUpConn(c group.Client, id string, label string, offer string) (*rtpUpCon
 
 		up.mu.Unlock()
 
-		pushConn(up, c.Group(), c.Group().GetClients(c))
+		if g := c.Group(); g != nil {
+			pushConn(up, g, g.GetClients(c))
+		}
 	})
 
-	pushConn(up, c.Group(), c.Group().GetClients(c))
+	g = c.Group()
+	if g == nil {
+		pc.Close()
+		return nil, errors.New("client is not in a group")
+	}
+	pushConn(up, g, g.GetClients(c))
 	go rtcpUpSender(up)
 
 	return up, nil
